@@ -128,6 +128,9 @@ type c13EpEnv struct {
 	handlerKO map[*UdpEndpoint]bool
 	tupleIdx  map[bpfTuplesKey]int
 	mu        sync.Mutex
+	hookGid   int64
+	hookWant  map[string]bool
+	parked    *c13EpPark
 }
 
 func c13EpKey(k int, sym bool) UdpEndpointKey {
@@ -260,7 +263,7 @@ func c13OptTok(i int) string {
 	return fmt.Sprint(i)
 }
 
-func (e *c13EpEnv) goc(k int, sym bool, natMs int, owner, drain, d int, outcome string) (string, *UdpEndpoint) {
+func (e *c13EpEnv) gocCall(k int, sym bool, natMs int, owner, drain, d int, outcome string) (*UdpEndpoint, bool, error) {
 	for i, u := range e.under {
 		u.mu.Lock()
 		u.fail = outcome == "gen" && i == d
@@ -291,25 +294,231 @@ func (e *c13EpEnv) goc(k int, sym bool, natMs int, owner, drain, d int, outcome 
 	if drain >= 0 {
 		opts.DrainTracker = e.drains[drain]
 	}
-	ue, isNew, err := e.pool.GetOrCreate(c13EpKey(k, sym), opts)
-	synctest.Wait()
+	return e.pool.GetOrCreate(c13EpKey(k, sym), opts)
+}
+
+func (e *c13EpEnv) gocFmt(ue *UdpEndpoint, isNew bool, err error) string {
 	e.scan()
 	switch {
 	case err == nil && isNew:
-		return fmt.Sprintf("new %d", e.id(ue)), ue
+		return fmt.Sprintf("new %d", e.id(ue))
 	case err == nil:
-		return fmt.Sprintf("hit %d", e.id(ue)), ue
+		return fmt.Sprintf("hit %d", e.id(ue))
 	case errors.Is(err, ErrEndpointFailed):
-		return "err-failed", nil
+		return "err-failed"
 	default:
-		return "err-dial", nil
+		return "err-dial"
 	}
+}
+
+func (e *c13EpEnv) goc(k int, sym bool, natMs int, owner, drain, d int, outcome string) (string, *UdpEndpoint) {
+	ue, isNew, err := e.gocCall(k, sym, natMs, owner, drain, d, outcome)
+	synctest.Wait()
+	return e.gocFmt(ue, isNew, err), ue
+}
+
+// ---- parking ONE chosen goroutine of the pool at chosen yield points (inside the bubble) ----
+
+type c13EpPark struct {
+	name   string
+	ue     *UdpEndpoint
+	resume chan struct{}
+}
+
+func (e *c13EpEnv) hook(name string, args ...any) {
+	e.mu.Lock()
+	gid, want := e.hookGid, e.hookWant[name]
+	e.mu.Unlock()
+	if gid == 0 || !want || c13Goid() != gid {
+		return
+	}
+	p := &c13EpPark{name: name, resume: make(chan struct{})}
+	if len(args) > 0 {
+		if ue, ok := args[0].(*UdpEndpoint); ok {
+			p.ue = ue
+		}
+	}
+	e.mu.Lock()
+	e.parked = p
+	e.mu.Unlock()
+	<-p.resume
+}
+
+func (e *c13EpEnv) setWant(names ...string) {
+	e.mu.Lock()
+	e.hookWant = map[string]bool{}
+	for _, n := range names {
+		e.hookWant[n] = true
+	}
+	e.mu.Unlock()
+}
+
+func (e *c13EpEnv) takePark() *c13EpPark {
+	e.mu.Lock()
+	p := e.parked
+	e.parked = nil
+	e.mu.Unlock()
+	return p
+}
+
+// spawn runs f on a new goroutine whose yields are subject to parking
+func (e *c13EpEnv) spawn(f func()) {
+	go func() {
+		e.mu.Lock()
+		e.hookGid = c13Goid()
+		e.mu.Unlock()
+		f()
+		e.mu.Lock()
+		e.hookGid = 0
+		e.mu.Unlock()
+	}()
+}
+
+// c13Window restricts the operations issued while a pool call is parked half-way
+type c13Window struct {
+	noInval bool                  // inside a split InvalidateDialerNetworkType
+	avoid   *udpEndpointPoolShard // shard whose creation mutex the parked creator holds
+	keys    []int                 // keys worth hitting (endpoints of the dialer under invalidation)
+}
+
+func (e *c13EpEnv) keysOfDialer(d int, symOf map[int]bool) []int {
+	var ks []int
+	for k := 0; k < 6; k++ {
+		key := c13EpKey(k, symOf[k])
+		sh := e.pool.shardFor(key)
+		sh.mu.RLock()
+		ue := sh.pool[key]
+		sh.mu.RUnlock()
+		if ue != nil && ue.Dialer == e.dialers[d] {
+			ks = append(ks, k)
+		}
+	}
+	return ks
+}
+
+// InvalidateDialerNetworkType step by step: epoch bump | (other operations) | bucket snapshot, then per
+// endpoint: mark dead | (other operations) | leave the pool + close.  Hand-out / isNew / dial count of
+// every GetOrCreate and Get issued inside the windows are compared with the model.
+func c13EpSplitInvalidate(e *c13EpEnv, s *VStream, stats *VStats, r *VRand, symOf map[int]bool,
+	emit func(op, out string), doOp func(int, *c13Window)) {
+	d := r.Intn(2)
+	nt := &componentdialer.NetworkType{L4Proto: consts.L4ProtoStr_UDP, IpVersion: consts.IpVersionStr_4, UdpHealthDomain: componentdialer.UdpHealthDomainData}
+	done := make(chan int, 1)
+	e.setWant("invalidate.afterEpochBump")
+	e.spawn(func() { done <- e.pool.InvalidateDialerNetworkType(e.dialers[d], nt) })
+	synctest.Wait()
+	p := e.takePark()
+	if p == nil {
+		panic("c13: InvalidateDialerNetworkType did not reach its yield point")
+	}
+	emit(fmt.Sprintf("ep ibump %d", d), "ok")
+	stats.Inc("ep.split.inval")
+	win := &c13Window{noInval: true, keys: e.keysOfDialer(d, symOf)}
+	for j, n := 0, r.Intn(4); j < n; j++ {
+		doOp(r.Intn(100), win)
+		stats.Inc("ep.split.inval.opAfterBump")
+	}
+	e.setWant("retire.afterMarkDead")
+	close(p.resume)
+	synctest.Wait()
+	s.Emit(fmt.Sprintf("ep isnap %d", d), "ok")
+	cur := e.takePark()
+	if cur != nil {
+		s.Emit(fmt.Sprintf("ep markdead %d", e.id(cur.ue)), "ok")
+	}
+	s.Emit("ep st", e.digest(symOf))
+	for cur != nil {
+		for j, n := 0, r.Intn(3); j < n; j++ {
+			doOp(r.Intn(100), win)
+			stats.Inc("ep.split.inval.opInsideRetire")
+		}
+		id := e.id(cur.ue)
+		close(cur.resume)
+		synctest.Wait()
+		s.Emit(fmt.Sprintf("ep retirefin %d", id), "ok")
+		cur = e.takePark()
+		if cur != nil {
+			s.Emit(fmt.Sprintf("ep markdead %d", e.id(cur.ue)), "ok")
+		}
+		s.Emit("ep st", e.digest(symOf))
+	}
+	e.setWant()
+	emit("ep iend", fmt.Sprintf("removed=%d", <-done))
+}
+
+// GetOrCreate's creation step by step: dialled, object built (generation captured) | (other operations,
+// typically an invalidation of that dialer) | published.  Afterwards the same key is asked for again.
+func c13EpSplitCreate(e *c13EpEnv, s *VStream, stats *VStats, r *VRand, symOf map[int]bool,
+	emit func(op, out string), doOp func(int, *c13Window), nats []int) {
+	k := r.Intn(6)
+	g := r.Intn(3) - 1
+	d := r.Intn(2)
+	nat := nats[r.Intn(len(nats))]
+	type res struct {
+		ue    *UdpEndpoint
+		isNew bool
+		err   error
+	}
+	done := make(chan res, 1)
+	e.setWant("create.beforePublish")
+	e.spawn(func() {
+		ue, isNew, err := e.gocCall(k, symOf[k], nat, g, g, d, "ok")
+		done <- res{ue, isNew, err}
+	})
+	synctest.Wait()
+	p := e.takePark()
+	gocOp := fmt.Sprintf("ep goc %d %s %d %s %s %d ok", k, c13B(symOf[k]), nat, c13OptTok(g), c13OptTok(g), d)
+	if p == nil { // nothing to create (live endpoint or negative cache): an ordinary GetOrCreate
+		x := <-done
+		emit(gocOp, e.gocFmt(x.ue, x.isNew, x.err))
+		return
+	}
+	e.scan()
+	emit(fmt.Sprintf("ep gocprep %d %s %d %s %s %d", k, c13B(symOf[k]), nat, c13OptTok(g), c13OptTok(g), d), "ok")
+	stats.Inc("ep.split.create")
+	win := &c13Window{avoid: e.pool.shardFor(c13EpKey(k, symOf[k]))}
+	for j, n := 0, 1+r.Intn(3); j < n; j++ {
+		c := r.Intn(100)
+		if r.Chance(0.6) {
+			// the interesting neighbour: the creator's dialer is invalidated before the object is published
+			nt := &componentdialer.NetworkType{L4Proto: consts.L4ProtoStr_UDP, IpVersion: consts.IpVersionStr_4, UdpHealthDomain: componentdialer.UdpHealthDomainData}
+			dd := d
+			if r.Chance(0.2) {
+				dd = 1 - d
+			}
+			n := e.pool.InvalidateDialerNetworkType(e.dialers[dd], nt)
+			synctest.Wait()
+			emit(fmt.Sprintf("ep inval %d", dd), fmt.Sprintf("removed=%d", n))
+			stats.Inc("ep.split.create.invalInside")
+			continue
+		}
+		doOp(c, win)
+	}
+	e.setWant()
+	close(p.resume)
+	synctest.Wait()
+	x := <-done
+	emit("ep gocpub", e.gocFmt(x.ue, x.isNew, x.err))
+	// the same key again, and a look-up: a stale-generation never-used endpoint must be replaced, not handed out
+	if r.Chance(0.8) {
+		res, _ := e.goc(k, symOf[k], nat, g, g, d, "ok")
+		emit(gocOp, res)
+		stats.Inc("ep.split.create.again." + strings.Fields(res)[0])
+	}
+	ue, ok := e.pool.Get(c13EpKey(k, symOf[k]))
+	out := "none"
+	if ok {
+		out = fmt.Sprintf("e%d", e.id(ue))
+	}
+	s.Emit(fmt.Sprintf("ep get %d", k), out)
 }
 
 func c13RunEpSeq(t *testing.T, s *VStream, stats *VStats, r *VRand) {
 	synctest.Test(t, func(t *testing.T) {
 		e := c13NewEpEnv()
+		verifYieldHook = e.hook
 		defer func() {
+			verifYieldHook = nil
 			e.pool.Close()
 			// endpoints the pool lost track of would keep their read loop blocked past the bubble's end;
 			// the digests above have already shown them as never closed
@@ -329,7 +538,11 @@ func c13RunEpSeq(t *testing.T, s *VStream, stats *VStats, r *VRand) {
 		}
 		nats := []int{2000, 30000, 120000, 1000}
 		nops := 10 + r.Intn(60)
-		for i := 0; i < nops; i++ {
+		var doOp func(c int, win *c13Window)
+		doOp = func(c int, win *c13Window) {
+			if win != nil && c >= 88 && c < 95 && (win.noInval || c >= 93) {
+				c = r.Intn(30) // no nested invalidation / Reset inside a window: a GetOrCreate instead
+			}
 			pickEp := func() int {
 				if len(e.eps) == 0 {
 					return -1
@@ -340,11 +553,17 @@ func c13RunEpSeq(t *testing.T, s *VStream, stats *VStats, r *VRand) {
 				}
 				return r.Intn(len(e.eps))
 			}
-			switch c := r.Intn(100); {
+			switch {
 			case c < 30:
 				k := r.Intn(6)
 				if r.Chance(0.5) {
 					k = r.Intn(2) // collide on few keys
+				}
+				if win != nil && len(win.keys) > 0 && r.Chance(0.6) {
+					k = win.keys[r.Intn(len(win.keys))] // a key whose endpoint belongs to the dialer under invalidation
+				}
+				if win != nil && win.avoid != nil && e.pool.shardFor(c13EpKey(k, symOf[k])) == win.avoid {
+					return // would block on the creation mutex the parked creator holds
 				}
 				owner, drain := r.Intn(3)-1, r.Intn(3)-1
 				if r.Chance(0.6) { // generations usually come as (owner i, drain i)
@@ -375,7 +594,7 @@ func c13RunEpSeq(t *testing.T, s *VStream, stats *VStats, r *VRand) {
 			case c < 55:
 				id := pickEp()
 				if id < 0 || e.eps[id].conn == nil {
-					continue
+					return
 				}
 				ue := e.eps[id]
 				mode, tok := 0, "ok"
@@ -397,7 +616,7 @@ func c13RunEpSeq(t *testing.T, s *VStream, stats *VStats, r *VRand) {
 			case c < 65:
 				id := pickEp()
 				if id < 0 || e.eps[id].conn == nil {
-					continue
+					return
 				}
 				ue := e.eps[id]
 				hok := !r.Chance(0.15)
@@ -414,7 +633,7 @@ func c13RunEpSeq(t *testing.T, s *VStream, stats *VStats, r *VRand) {
 			case c < 69:
 				id := pickEp()
 				if id < 0 || e.eps[id].conn == nil {
-					continue
+					return
 				}
 				cn := e.eps[id].conn.(*c13Conn)
 				if cn.closes.Load() == 0 {
@@ -426,7 +645,7 @@ func c13RunEpSeq(t *testing.T, s *VStream, stats *VStats, r *VRand) {
 			case c < 74:
 				id := pickEp()
 				if id < 0 {
-					continue
+					return
 				}
 				ue := e.eps[id]
 				k := int(ue.poolKey.Src.Port()) - 30000
@@ -445,7 +664,7 @@ func c13RunEpSeq(t *testing.T, s *VStream, stats *VStats, r *VRand) {
 			case c < 77:
 				id := pickEp()
 				if id < 0 || e.isPooled(e.eps[id]) {
-					continue // production code closes an endpoint only after taking it out of the pool
+					return // production code closes an endpoint only after taking it out of the pool
 				}
 				_ = e.eps[id].Close()
 				synctest.Wait()
@@ -473,13 +692,24 @@ func c13RunEpSeq(t *testing.T, s *VStream, stats *VStats, r *VRand) {
 			default:
 				id := pickEp()
 				if id < 0 {
-					continue
+					return
 				}
 				j := r.Intn(4)
 				a, b := c13PairAddrs(j)
 				e.eps[id].TrackUdpConnStateTuplePair(a, b)
 				stats.Inc("ep.track")
 				emit(fmt.Sprintf("ep track %d %d", id, j), "ok")
+			}
+		}
+		for i := 0; i < nops; i++ {
+			x := r.Intn(112)
+			switch {
+			case x < 100:
+				doOp(x, nil)
+			case x < 107:
+				c13EpSplitInvalidate(e, s, stats, r, symOf, emit, doOp)
+			default:
+				c13EpSplitCreate(e, s, stats, r, symOf, emit, doOp, nats)
 			}
 		}
 		// quiesce: no traffic for longer than any NAT timeout -> the janitor closes what is left
